@@ -2,6 +2,8 @@ import Driver.Common
 import Driver.GTreeIO
 import GeosModel.Base.F64
 import GeosModel.Model.Relate.Agree
+import GeosModel.Model.Relate.RectFast
+import GeosModel.Model.Relate.ScratchPoint
 import Driver.Flatten
 /-! Driver for C02: evaluates `consistent` (Model/Relate/Agree.lean) on the observation the harness made,
 plus the rectangle-variant and XY-form equalities. -/
@@ -79,7 +81,12 @@ def check (line : String) : String :=
           let novSelf := match flattenPair ga.g ga.g with
             | some (A, _) => if inexactIncidence A.f A.f then "1" else "0"
             | none => "?"
-          "bad " ++ why ++ " nov=" ++ (if why.startsWith "self-relations" then novSelf else nov)
+          -- a (near-)degenerate contact INSIDE one of the two geometries (a vertex within rounding distance of another segment of the same
+          -- geometry, not exactly on it): the noding robustness family again, but not visible in the cross-geometry `nov`
+          let snov := match flattenPair ga.g gb.g with
+            | some (A, B) => if inexactIncidence A.f A.f || inexactIncidence B.f B.f then "1" else "0"
+            | none => "?"
+          "bad " ++ why ++ " nov=" ++ (if why.startsWith "self-relations" then novSelf else nov) ++ " snov=" ++ snov
         else if get "QR" != get "Q" then s!"bad prepared-order-dependent Q={get "Q"} QR={get "QR"} nov={nov}"
         else if ea && eb && (get "P").toList[7]? == some '1' && m.toStr == "FFFFFFFF2" then "bad equals-both-empty"
         else
@@ -88,9 +95,16 @@ def check (line : String) : String :=
           if rectBad then s!"bad rectangle-variant rect={rect} expected={get "P"}:{get "Q"}:{get "PB"} nov={nov}"
           else
             let xy := get "xy"
-            match xy.toList with
-            | [a, b, c, d] => if a == c && b == d then "ok" else s!"bad xy-forms xy={xy} nov={nov}"
-            | _ => if xy == "-" then "ok" else "bad xy-format"
+            -- the walk of XY queries: every group is containsXY intersectsXY, prepared contains / intersects of a fresh POINT, unprepared ones
+            let walk := if get "xys" == "?" then [] else (get "xys").splitOn ","
+            let walkBad := (List.range walk.length).zip walk |>.find? fun (_, grp) =>
+              match grp.toList with
+              | [a, b, c, d, e, f] => !(a == c && c == e && b == d && d == f && (a == '0' || a == '1') && (b == '0' || b == '1'))
+              | _ => true
+            match xy.toList, walkBad with
+            | [a, b, c, d], none => if a == c && b == d then "ok" else s!"bad xy-forms xy={xy} nov={nov}"
+            | _, some (k, grp) => s!"bad xy-sequence k={k} group={grp} xys={get "xys"} nov={nov}"
+            | _, none => if xy == "-" then "ok" else "bad xy-format"
       | _, _, _, _, _, _, _, _ => "bad exception-or-unparsable-observation"
     | _, _ => "parse-error"
   | _ => "bad-line"
@@ -122,10 +136,104 @@ def imAlgebra (line : String) : String :=
     | _, _ => "parse-error"
   | _ => "bad-line"
 
+/-! #### stream rect-fast: `RectangleIntersects::intersects` and its callers against Model/Relate/RectFast on lattice input -/
+open GeosModel.Kernel GeosModel.RectFast in
+def parsePts : Nat → List String → Option (List Pt × List String)
+  | 0, r => some ([], r)
+  | n + 1, x :: y :: r => do
+    let xi ← x.toInt?
+    let yi ← y.toInt?
+    let (ps, r') ← parsePts n r
+    some (⟨xi, yi⟩ :: ps, r')
+  | _, _ => none
+
+def parseSeq : List String → Option (List GeosModel.Kernel.Pt × List String)
+  | n :: r => do parsePts (← n.toNat?) r
+  | [] => none
+
+def parseRings : Nat → List String → Option (List (List GeosModel.Kernel.Pt) × List String)
+  | 0, r => some ([], r)
+  | n + 1, r => do
+    let (ring, r1) ← parseSeq r
+    let (rs, r2) ← parseRings n r1
+    some (ring :: rs, r2)
+
+open GeosModel.RectFast in
+def parseElem : List String → Option Elem
+  | ["-"] => none
+  | "P" :: r => match parseSeq r with
+    | some (ps, []) => some (.point ps)
+    | _ => none
+  | "L" :: r => match parseSeq r with
+    | some (ps, []) => some (.line ps)
+    | _ => none
+  | "Y" :: n :: r => match n.toNat? with
+    | some k => match parseRings k r with
+      | some (rings, []) => some (.polygon rings)
+      | _ => none
+    | none => none
+  | _ => none
+
+def splitOnTok (sep : String) (l : List String) : List (List String) :=
+  let (acc, cur) := l.foldl (fun (st : List (List String) × List String) t => if t == sep then (st.1 ++ [st.2], []) else (st.1, st.2 ++ [t])) ([], [])
+  acc ++ [cur]
+
+open GeosModel.RectFast in
+def rectFast (line : String) : String :=
+  match splitBar (Driver.tokens line) with
+  | ["F" :: rect, elems, flags] =>
+    match parseSeq rect with
+    | some (ring, []) =>
+      let es := if elems == ["-"] then some [] else (splitOnTok ";" elems).mapM parseElem
+      match es with
+      | some g =>
+        let o := kv flags
+        let valid := o.lookup "v" == some "1"
+        let swapped := o.lookup "swap" == some "1"
+        let c (b : Bool) : String := if b then "1" else "0"
+        let m := rectIntersects ring g
+        -- Geometry::intersects(g, rect) with g itself a rectangle runs the fast path with the roles exchanged
+        let m3 := match swapped, g with
+          | true, [.polygon [gring]] => rectIntersects gring [.polygon [ring]]
+          | _, _ => m
+        let ans := c m ++ c m ++ c m3 ++ c m
+        -- on valid input the fast path must also agree with the witnessed-intersection reference
+        if valid && refIntersects ring g != m then s!"{ans} reference-differs stage={rectStage ring g} ref={c (refIntersects ring g)}" else ans
+      | none => "parse-error"
+    | _ => "parse-error"
+  | _ => "bad-line"
+
+/-! #### stream point-setxy: one `geom::Point` overwritten by `setXY`, against Model/Relate/ScratchPoint (ordinates as raw bit patterns:
+the model only copies them) -/
+open GeosModel.ScratchPoint in
+def pointSetXY (line : String) : String :=
+  let hexI (t : String) : Option Int := (Driver.parseHex64 t).map fun u => (u.toNat : Int)
+  let showI (i : Int) : String := Driver.GTreeIO.hex64 (UInt64.ofNat i.toNat)
+  let parseXY (t : String) : Option (Int × Int) := match t.splitOn ":" with
+    | [a, b] => do some (← hexI a, ← hexI b)
+    | _ => none
+  match Driver.tokens line with
+  | "S" :: start :: ops =>
+    let s0 : Option PointSt := if start == "E" then some (fresh none) else (parseXY start).map fun c => fresh (some c)
+    match s0, ops.mapM parseXY with
+    | some s0, some ops =>
+      let step (acc : PointSt × List String) (o : Int × Int) : PointSt × List String :=
+        let s := setXY acc.1 o.1 o.2
+        let d := match s.coords, s.env with
+          | c :: _, some b => s!"P:{showI c.1}:{showI c.2}:{showI b.minx}:{showI b.maxx}:{showI b.miny}:{showI b.maxy}"
+          | c :: _, none => s!"P:{showI c.1}:{showI c.2}:null"
+          | [], _ => "E"
+        (s, acc.2 ++ [d])
+      " ".intercalate (ops.foldl step (s0, [])).2
+    | _, _ => "parse-error"
+  | _ => "bad-line"
+
 end Driver.C02
 
 def main (args : List String) : IO UInt32 := do
   match args with
   | ["relate-dbl"] => Driver.loop (← IO.getStdin) (← IO.getStdout) Driver.C02.check; return 0
   | ["im-algebra"] => Driver.loop (← IO.getStdin) (← IO.getStdout) Driver.C02.imAlgebra; return 0
+  | ["rect-fast"] => Driver.loop (← IO.getStdin) (← IO.getStdout) Driver.C02.rectFast; return 0
+  | ["point-setxy"] => Driver.loop (← IO.getStdin) (← IO.getStdout) Driver.C02.pointSetXY; return 0
   | _ => IO.eprintln "usage: drv_c02 relate-dbl"; return 2
